@@ -81,7 +81,8 @@ pub fn one_case(tag: &str, id: &str, r: &mut Rng, max_ops: u64, snaps: bool) -> 
                     let dirent = if with_entry {
                         // an entry whose extent lies inside the image built so far, after the directory
                         let lo = r.range(dir_end as u64, buf.len() as u64 - 1);
-                        let sz = r.range(1, buf.len() as u64 - lo);
+                        // (an entry may describe an empty stream: it still has to reach the destination)
+                        let sz = if r.chance(1, 6) { 0 } else { r.range(1, buf.len() as u64 - lo) };
                         let d = md::MINIDUMP_DIRECTORY {
                             stream_type: r.range(1, 0xffff) as u32,
                             location: md::MINIDUMP_LOCATION_DESCRIPTOR { data_size: sz as u32, rva: lo as u32 },
